@@ -29,6 +29,32 @@ struct SimGrid // a nested fixed array (same layout in both ABIs)
   short tail;
 };
 
+struct SimInner
+{
+  int a;
+  char* p;
+};
+struct SimOuter // a struct with a struct-typed field (conversions recurse), a pointer to a struct and a trailing long
+{
+  long x;
+  SimInner in;
+  SimNode* node;
+  long y;
+};
+struct GInner
+{
+  int32_t a;
+  SIM_PTR_T p;
+};
+struct GOuter
+{
+  int32_t x;
+  GInner in;
+  SIM_PTR_T node;
+  int32_t y;
+};
+static_assert(sizeof(GOuter) == (sizeof(SIM_PTR_T) == 4 ? 20 : 40));
+
 struct SimTable // long fixed arrays: indices of narrow integer types can be negative or wrap before they reach the extent
 {
   int tbl[300];
@@ -51,6 +77,14 @@ struct SimBig
 #define sandbox_fields_reflection_simlib_class_SimGrid(f, g, ...)              \
   f(int[2][4], m, FIELD_NORMAL, ##__VA_ARGS__) g()                             \
   f(short, tail, FIELD_NORMAL, ##__VA_ARGS__) g()
+#define sandbox_fields_reflection_simlib_class_SimInner(f, g, ...)             \
+  f(int, a, FIELD_NORMAL, ##__VA_ARGS__) g()                                   \
+  f(char*, p, FIELD_NORMAL, ##__VA_ARGS__) g()
+#define sandbox_fields_reflection_simlib_class_SimOuter(f, g, ...)             \
+  f(long, x, FIELD_NORMAL, ##__VA_ARGS__) g()                                  \
+  f(SimInner, in, FIELD_NORMAL, ##__VA_ARGS__) g()                             \
+  f(SimNode*, node, FIELD_NORMAL, ##__VA_ARGS__) g()                           \
+  f(long, y, FIELD_NORMAL, ##__VA_ARGS__) g()
 #define sandbox_fields_reflection_simlib_class_SimTable(f, g, ...)             \
   f(int[300], tbl, FIELD_NORMAL, ##__VA_ARGS__) g()
 #define sandbox_fields_reflection_simlib_class_SimBig(f, g, ...)               \
@@ -58,6 +92,8 @@ struct SimBig
 #define sandbox_fields_reflection_simlib_allClasses(f, ...)                    \
   f(SimNode, simlib, ##__VA_ARGS__)                                            \
   f(SimGrid, simlib, ##__VA_ARGS__)                                            \
+  f(SimInner, simlib, ##__VA_ARGS__)                                           \
+  f(SimOuter, simlib, ##__VA_ARGS__)                                           \
   f(SimTable, simlib, ##__VA_ARGS__)                                           \
   f(SimBig, simlib, ##__VA_ARGS__)
 rlbox_load_structs_from_library(simlib);
